@@ -106,6 +106,20 @@ Definition sv_epoch (d t : Z) : epoch :=
   let b := u32 (idx * d)%Z in
   (b, u32 (Z.of_N b + d mod 2 ^ 32)%Z).
 
+(** ** secret values (drkey.DeriveSV): the KDF (PBKDF2-HMAC-SHA256, salt "Derive DRKey Key",
+    1000 iterations, 16 bytes) is applied to
+      len(secret) as uint64 || secret || protocol as uint16 || epoch begin, end as uint32 *)
+Definition sv_input (ms : bytes) (p : N) (e : epoch) : bytes :=
+  be 8 (N.of_nat (length ms)) ++ ms ++ be 2 p ++ be 4 (fst e) ++ be 4 (snd e).
+
+(** DeriveSV refuses an empty secret *)
+Definition derive_sv (kdf : bytes -> key) (ms : bytes) (p : N) (e : epoch) : option key :=
+  match ms with [] => None | _ => Some (kdf (sv_input ms p e)) end.
+
+(** the secret values of a world in which AS [ia] has master secret [ms ia] *)
+Definition sv_of (kdf : bytes -> key) (ms : N -> bytes) (ia p : N) (e : epoch) : key :=
+  kdf (sv_input (ms ia) p e).
+
 Inductive res := ROk (k : key) (e : epoch) | RErr.
 
 Section Derivation.
@@ -347,6 +361,10 @@ Inductive case :=
 | CPair (prfs : prf_table) (fmt kt proto : N) (parent : key) (h1 h2 : host)
         (impl1 impl2 : option key)
     (* two hosts, same parent key / key type / protocol, keys from the real derivers *)
+| CSV (kdfs : list (bytes * key)) (ms : bytes) (p1 : N) (e1 : epoch) (p2 : N) (e2 : epoch)
+      (impl1 impl2 : option key)
+    (* drkey.DeriveSV for one master secret and two (protocol, epoch) pairs; [kdfs] is an
+       independent PBKDF2 over the documented input layout *)
 | CWindow (epoch_dur aw t : Z) (ts : N) (impl : wres)
 | CAbs (nb : Z) (ts : N) (impl_sec impl_nsec : Z)
 | CRel (nb t : Z) (impl : option N).
@@ -425,6 +443,18 @@ Definition pair_ok (h1 h2 : host) (doc1 doc2 o1 o2 : option key) : bool :=
   | _, _ => true
   end.
 
+Definition kdf_tab (tab : list (bytes * key)) (i : bytes) : key :=
+  match find (fun e => bytes_eqb (fst e) i) tab with Some e => snd e | None => [] end.
+
+(** each secret value is the documented one, and equal secret values mean the same
+    (protocol, epoch) *)
+Definition sv_pair_ok (p1 : N) (e1 : epoch) (p2 : N) (e2 : epoch) (doc1 doc2 o1 o2 : option key) : bool :=
+  option_eqb bytes_eqb o1 doc1 && option_eqb bytes_eqb o2 doc2 &&
+  match o1, o2 with
+  | Some a, Some b => if bytes_eqb a b then (p1 =? p2) && epoch_eqb e1 e2 else true
+  | _, _ => true
+  end.
+
 Definition check (c : case) : N :=
   match c with
   | CConsts kts g types =>
@@ -450,6 +480,12 @@ Definition check (c : case) : N :=
     let miss := miss_key d1 || miss_key d2 in
     Check.verdict (negb miss && option_eqb bytes_eqb d1 o1 && option_eqb bytes_eqb d2 o2)
                   (miss || pair_ok h1 h2 d1 d2 o1 o2)
+  | CSV kdfs ms p1 e1 p2 e2 o1 o2 =>
+    let d1 := derive_sv (kdf_tab kdfs) ms p1 e1 in
+    let d2 := derive_sv (kdf_tab kdfs) ms p2 e2 in
+    let miss := miss_key d1 || miss_key d2 in
+    Check.verdict (negb miss && option_eqb bytes_eqb d1 o1 && option_eqb bytes_eqb d2 o2)
+                  (miss || sv_pair_ok p1 e1 p2 e2 d1 d2 o1 o2)
   | CWindow ed aw t ts impl =>
     Check.verdict (wres_eqb (get_key_within_window ed aw t ts) impl) (window_ok aw t ts impl)
   | CAbs nb ts isec insec =>
@@ -474,6 +510,9 @@ Definition diag (c : case) : list (list N) :=
   | CPair prfs fmt kt proto parent h1 h2 _ _ =>
     map (fun k => match k with Some k => k | None => [] end)
         [pair_key (prf_tab prfs) fmt kt proto parent h1; pair_key (prf_tab prfs) fmt kt proto parent h2]
+  | CSV kdfs ms p1 e1 p2 e2 _ _ =>
+    map (fun k => match k with Some k => k | None => [] end)
+        [derive_sv (kdf_tab kdfs) ms p1 e1; derive_sv (kdf_tab kdfs) ms p2 e2]
   | CWindow ed aw t ts _ =>
     match get_key_within_window ed aw t ts with
     | WKey a b => [[1; Z.to_N a; Z.to_N b]] | WNone => [[0]] | WPanic => [[2]]
